@@ -110,14 +110,31 @@ structure GNode where
   terminating : Bool := false
 deriving Repr, DecidableEq
 
+/-- The *frame* of the collector's guarding reads: WHICH error a failing read returned (the class names are the
+    harness's: kube API `notfound` / `conflict` / `timeout` / …, provider `nodeclaim-notfound` (bare, wrapped,
+    joined) / `insufficient-capacity` / `nodeclass-not-ready` / …) and whether the failing `cloudProvider.List`
+    returned a partial result next to its error.  `Controller.Reconcile` tests each of the three reads with a
+    plain `err != nil` (the Node lookup: after discounting its own NodeNotFound / DuplicateNode results, which are
+    *outcomes* of a lookup that worked — `Lookup.notFound` / `.duplicate` below): no error type is an excuse, a
+    read that failed has established nothing.  The model carries the frame only to *say* so (`gcWith` never looks
+    at `i.errs`; `C16_gc_error_class_frame` is the statement), and the correspondence harness varies all of it on
+    the real controller. -/
+structure GCErrFrame where
+  listClaims          : String := ""
+  providerList        : String := ""
+  providerListPartial : Bool := false
+  lookup              : String := ""
+deriving Repr, DecidableEq
+
 structure GCIn where
   claims            : List Claim
   provider          : List Inst
   nodes             : List GNode
-  listClaimsFault   : Bool            -- listing NodeClaims fails
-  providerListFault : Bool            -- `cloudProvider.List` fails
-  lookupFault       : List String     -- provider ids for which the Node list fails
+  listClaimsFault   : Bool            -- listing NodeClaims fails (with whatever error)
+  providerListFault : Bool            -- `cloudProvider.List` fails (with whatever error)
+  lookupFault       : List String     -- provider ids for which the Node list fails (with whatever error)
   deleteFaults      : List (String × Fault)
+  errs              : GCErrFrame := {}
 deriving Repr
 
 /-- `NodeForNodeClaim` -/
